@@ -1,3 +1,81 @@
 import KsiVerif.Util.DriverMain
-open KsiVerif
-def main : IO Unit := runDriver (fun i _ => "skip no-model-yet " ++ i)
+import KsiVerif.Util.VerifyDrv
+import KsiVerif.Model.Extend
+/-! Model driver for C08 — protocol in harness/exec_c08.c. -/
+open KsiVerif KsiVerif.Tlv KsiVerif.TlvSpec KsiVerif.Template KsiVerif.Verify KsiVerif.Policy KsiVerif.VerifyDrv KsiVerif.Extend
+
+def topElems (raw : Bytes) : List Tlv :=
+  match parseBlob raw with
+  | .ok t => match expand (payload t) with | .ok es => es | .error _ => []
+  | .error _ => []
+
+def tagged (es : List Tlv) (tag : Nat) : List Bytes := (es.filter (·.tag == tag)).map encode
+
+/-- C08 on the implementation's own output: what the result must look like, whatever the model says -/
+def resultSpec (src : Bytes) (pub : Option Tlv) (outWords : List String) : Option String :=
+  match outWords.find? (·.startsWith "R") with
+  | none => none
+  | some rw =>
+    match ofHex (rw.drop 1).toString with
+    | none => some "unreadable-result"
+    | some res =>
+      let a := topElems src
+      let b := topElems res
+      if tagged a 0x801 != tagged b 0x801 then some "aggregation-chains-of-the-result-differ-from-the-source"
+      else if tagged a 0x806 != tagged b 0x806 then some "legacy-record-of-the-result-differs-from-the-source"
+      else if (tagged b 0x802).length != 1 then some "result-does-not-carry-exactly-one-calendar-chain"
+      else if !(tagged b 0x805).isEmpty then some "result-still-carries-a-calendar-authentication-record"
+      else if tagged b 0x803 != (match pub with | some p => [encode p] | none => []) then some "publication-record-of-the-result-is-not-the-supplied-one"
+      else if !outWords.contains "D1" then some "result-has-another-document-hash"
+      else if !outWords.contains "T1" then some "result-has-another-signing-time"
+      else none
+
+def handle (inp out : String) : String :=
+  match words inp with
+  | "x" :: sigHex :: to :: pubHex :: ver :: keyHex :: replyHex :: rest =>
+    let label := rest.headD "-"
+    let ows := words out
+    let st := ows.headD "?"
+    match ofHex sigHex, ofHex keyHex, ofHex replyHex, ver.toNat? with
+    | some src, some key, some reply, some v =>
+      let pub : Option Tlv := if pubHex == "-" then none else match ofHex pubHex with
+        | some pb => (parseBlob pb).toOption
+        | none => none
+      -- the property, on the implementation's output alone
+      let viol : Option String :=
+        if st.startsWith "X" && !ows.contains "S1" then some "source-signature-changed"
+        else if label != "ok" && st == "X0" then some s!"extended-although-{label}"
+        else if label == "ok" && st != "X0" then some s!"honest-reply-refused-{st}"
+        else if ows.contains "RESULT-WITH-ERROR" then some "a-result-was-returned-together-with-an-error"
+        else resultSpec src pub ows
+      match viol with
+      | some why => s!"specfail x:{label} {why}"
+      | none =>
+        let ms := match extendTo Hreal cfg src to.toNat? pub 1 v none key reply with
+          | .ok o => s!"X0 R{toHex o} D1 T1 S1"
+          | .error e => match parseSignature cfg src with
+            | .error _ => s!"P{e}"
+            | .ok _ => s!"X{e} S1"
+        if ms == out then s!"ok x:{label}:{st}"
+        else if (words ms).headD "?" == st && st != "X0" then s!"ok x:{label}:{st}"
+        else s!"diff x:{label}:{st} model={ms.take 60}"
+    | _, _, _, _ => "skip bad-args"
+  | "compat" :: a :: b :: rest =>
+    let label := rest.headD "-"
+    match ofHex a, ofHex b with
+    | some ra, some rb =>
+      let chain (r : Bytes) : Option CalChain :=
+        match templateParse cfg "KSI_CalendarHashChain" r with
+        | .ok vs => calOf cfg.tabs (.obj vs)
+        | .error _ => none
+      match chain ra, chain rb with
+      | some ca, some cb =>
+        let ms := s!"K{compatible ca cb}"
+        let agree := rights ca == rights cb
+        if out == "K0" && !agree then s!"specfail compat:{label} chains-whose-right-links-differ-reported-compatible"
+        else if ms == out then s!"ok compat:{label}:{out}" else s!"diff compat:{label}:{out} model={ms}"
+      | _, _ => if out.startsWith "BAD-CHAIN" then "ok compat:unparsable" else s!"diff compat:{label}:{out} model=BAD-CHAIN"
+    | _, _ => "skip bad-hex"
+  | _ => "skip unknown-op"
+
+def main : IO Unit := runDriver handle
